@@ -143,6 +143,8 @@ def gen_case(rng, gen_t, exact):
             'fault': rng.choice([0, 0, 0, 1, 2]),
             # the caller edits through a list reference it kept, instead of asking node.transforms each time
             'held': rng.random() < 0.35,
+            # (constructed) how the node is made: all arguments / transforms omitted and listed in place / everything omitted
+            'made': rng.choice([0, 1, 2]),
             # (loaded) a forward instance_node below the node: 1 in its child node, 2 directly in it
             'fwd': rng.choice([0, 0, 1, 2])}
     return case
@@ -269,7 +271,36 @@ def extreme_partner(rng):
     return ['translate'] + v
 
 
+def far_lookat(rng):
+    """a camera far from the origin compared with its distance to the interest point (georeferenced coordinates):
+    only double precision resolves eye - interest"""
+    while True:
+        dist = 10 ** rng.uniform(-1, 2)
+        far = dist * 10 ** rng.uniform(5, 9)
+        f = [rng.gauss(0, 1) for _ in range(3)]
+        n = math.sqrt(sum(x * x for x in f))
+        u = [rng.gauss(0, 1) for _ in range(3)]
+        nu = math.sqrt(sum(x * x for x in u))
+        if n < 1e-3 or nu < 1e-3:
+            continue
+        f = [x / n for x in f]
+        u = [x / nu for x in u]
+        cr = [f[1] * u[2] - f[2] * u[1], f[2] * u[0] - f[0] * u[2], f[0] * u[1] - f[1] * u[0]]
+        if math.sqrt(sum(x * x for x in cr)) < 0.3:
+            continue
+        eye = [rng.choice([-1, 1]) * far * rng.uniform(0.2, 1) if rng.random() < 0.7 else rng.uniform(-10, 10) for _ in range(3)]
+        if max(abs(x) for x in eye) < far * 0.1:
+            eye[rng.randrange(3)] = far
+        interest = [e - dist * x for e, x in zip(eye, f)]
+        return ['lookat', eye, interest, u]
+
+
 def gen_float_case(rng):
+    if rng.random() < 0.04:
+        # constructed only, double-precision arguments (lists or float64 arrays)
+        return {'mode': 'C', 'init': [far_lookat(rng)], 'edits': [], 'edits2': [], 'form': rng.choice([0, 1, 3, 4]),
+                'save_via': rng.choice(['node', 'doc']), 'nest': rng.choice([0, 1, 2]), 'exact': False, 'fault': 0,
+                'made': rng.choice([0, 1, 2]), 'far': True}
     if rng.random() < 0.08:
         # near-identity transforms composed with huge / tiny partners: nothing may be rounded away as "identity"
         ts = [near_identity(rng), extreme_partner(rng)]
